@@ -760,6 +760,182 @@ def _long_family_tasks(tier):
                 )
     return out
 
+# ----------------------------------------------------------------------------
+# round 4 families: readings exactly on interior bin edges (lattice data)
+# ----------------------------------------------------------------------------
+def _spread(levels, stride):
+    """Deterministic interleaving of a sorted window (stride coprime with its length)."""
+    w = len(levels)
+    return [levels[(i * stride) % w] for i in range(w)]
+
+
+def _levels(counts):
+    return [k for k, c in enumerate(counts) for _ in range(c)]
+
+
+# online_scaling=False: window mean dyadic, (max - min) / bins dyadic => projection = reading - mean, every
+# interior edge is a reading (or half-way between two), counts per level 0..8 below
+LAT_RAW = {
+    4: _spread(_levels([1, 0, 0, 0, 2, 0, 0, 0, 1]), 1),  # 2 bins, edge at level 4
+    9: _spread(_levels([2, 0, 2, 1, 2, 0, 2, 0, 0]), 2),  # 3 bins over 0..6, edges at levels 2 and 4
+    16: _spread(_levels([2, 0, 3, 1, 4, 1, 3, 0, 2]), 5),  # 4 bins, edges at levels 2, 4, 6
+    25: _spread(_levels([6, 5, 5, 3, 4, 2, 0, 0, 0]), 7),  # 5 bins over 0..5, edges at levels 1..4
+    64: _spread(_levels([16, 4, 4, 4, 8, 4, 4, 4, 16]), 27),  # 8 bins, every level is an edge
+}
+# online_scaling=True: additionally the standard deviation of the window is a power of two (2 here)
+LAT_SCALED = {
+    8: _spread(_levels([1, 0, 0, 0, 6, 0, 0, 0, 1]), 3),  # standardised -2, 0, 2; 2 bins, edge at 0
+    16: _spread(_levels([1, 0, 4, 0, 6, 0, 4, 0, 1]), 5),  # standardised -2..2 in steps of 1; 4 bins
+    64: _spread(_levels([4, 4, 4, 12, 16, 12, 4, 4, 4]), 27),  # standardised -2..2 in steps of 1/2; 8 bins
+}
+# two uncorrelated readings (a in 0..4, 16 b in {0, 16, 32}): the full 5 x 3 grid four times + four times its
+# centre: covariance exactly diagonal, two retained components (ev 0.99), both on exact edges
+LAT_GRID64 = _spread(sorted([a + 5 * b for b in range(3) for a in range(5)] * 4 + [7] * 4), 27)
+LAT_STEP = {4: (0.25, 0.5), 8: (0.13, 0.25), 9: (0.12, 0.2), 16: (0.07, 0.13), 25: (0.04, 0.08), 64: (0.02, 0.05)}
+# dyadic units / levels (the lattice stays a lattice) and integer rows
+LAT_TRANSFORMS = [
+    ("x2^-10", {"unit": 2.0 ** -10}),
+    ("x1024-65536", {"unit": 1024.0, "level": -65536.0}),
+    ("cols", {"unit": [0.25, 8.0, 2.0], "level": [1024.0, -0.5, 3.0]}),
+    ("int64x2", {"unit": 2.0, "dtype": "int64"}),
+]
+
+
+def _lattice_cfg(cid, fam, menu, w, scaling, stepi, ev, delta, alphabet, L, transform=None):
+    cfg = {
+        "id": cid,
+        "dim": len(POINTS[menu][0]),
+        "menu": menu,
+        "alphabet": list(alphabet),
+        "len": L,
+        "fam": fam,
+        "params": {
+            "window_size": w,
+            "ev_threshold": ev,
+            "delta": delta,
+            "divergence_metric": "intersection",
+            "sample_period": LAT_STEP[w][stepi],
+            "online_scaling": scaling,
+        },
+    }
+    if transform:
+        cfg["transform"] = transform
+    return cfg
+
+
+def _lattice_label(cfg, what):
+    p = cfg["params"]
+    return "PCACD|%d|%s w%d inter %s ev%s d%s sp%s|%s %s" % (
+        cfg["id"], cfg["menu"], p["window_size"], "scal" if p["online_scaling"] else "raw",
+        p["ev_threshold"], p["delta"], p["sample_period"], cfg["fam"], what)
+
+
+def _lattice_dev(cfg, default, zone, k, what, parts=1):
+    """k deviations at positions of ``zone`` (every other alphabet symbol); split over ``parts`` tasks by the
+    position of the first deviation when k == 1."""
+    L = len(default)
+    zone = sorted(zone)
+    out = []
+    for part in range(parts):
+        mine = set(zone[part::parts]) if k == 1 else set(zone)
+        out.append({
+            "system": "PCACD",
+            "cfg": cfg,
+            "mode": "dev",
+            "default": list(default),
+            "menu": [list(cfg["alphabet"]) if i in mine else [] for i in range(L)],
+            "menu_per_pos": True,
+            "k": k,
+            "validate_every": 25,
+            "label": _lattice_label(cfg, "%s k%d%s" % (what, k, " part%d" % part if parts > 1 else "")),
+            "cost": L + (sum(L - i for i in mine) * (len(cfg["alphabet"]) - 1)) ** k,
+        })
+        if k != 1:
+            break
+    return out
+
+
+def _lattice_tasks(tier):
+    """Readings that sit *exactly* on interior bin edges, in both windows (models/pcacd.py "Exactly decidable
+    bin edges": the two histograms must then count them on the same side).  Default = the periodic stream (test
+    window == reference window at every check: score exactly 0, although most readings are on edges), deviations
+    move single readings onto / off / across edges; window 64 additionally has a scripted level shift (Page-Hinkley
+    threshold 1) and a second epoch."""
+    q = tier == "quick"
+    out = []
+    cid = 5000
+    alpha = [0, 2, 3, 4, 6, 8]
+
+    # -- one quantised reading next to constant columns, small windows (Page-Hinkley threshold 0)
+    small = [("lattice_raw", "lat2", w, False) for w in (4, 9, 16, 25)]
+    small += [("lattice_raw", "lat3", w, False) for w in (9, 16)]
+    small += [("lattice_scaled", "lat2", w, True) for w in (8, 16)]
+    for n, (fam, menu, w, scaling) in enumerate(small):
+        period = (LAT_SCALED if scaling else LAT_RAW)[w]
+        a = [s for s in alpha if s <= max(period) + 2]
+        L = 5 * w
+        default = [period[i % w] for i in range(L)]
+        for stepi in (0, 1):
+            cid += 1
+            if q and (w == 25 or ((w >= 16 or menu == "lat3") and stepi != n % 2)):
+                continue
+            cfg = _lattice_cfg(cid, fam, menu, w, scaling, stepi, (0.99, 0.6)[(n + stepi) % 2],
+                               (0.0, 0.1)[(n // 2 + stepi) % 2], a, L)
+            if w <= 9 and not q:
+                out += _lattice_dev(cfg, default, range(L), 2, "dev")
+            else:
+                zone = range(L) if (w <= 9 or not q) else sorted({1, w // 2, w + 2} | set(range(2 * w, 3 * w + 2)))
+                out += _lattice_dev(cfg, default, zone, 1, "dev", parts=2 if w >= 16 else 1)
+
+    # -- the same in dyadic units / at dyadic levels / as integers (window 16: 4 bins)
+    for n, (tag, transform) in enumerate(LAT_TRANSFORMS):
+        for scaling in (False, True):
+            cid += 1
+            if transform.get("dtype") and scaling and q:
+                continue
+            w = 16
+            menu = "lat3" if (tag == "cols" and not scaling) else "lat2"
+            period = (LAT_SCALED if scaling else LAT_RAW)[w]
+            L = 5 * w
+            default = [period[i % w] for i in range(L)]
+            tr = dict(transform)
+            d = len(POINTS[menu][0])
+            for key in ("unit", "level"):
+                if isinstance(tr.get(key), list):
+                    tr[key] = tr[key][:d] if d == 3 else tr[key][:2]
+            cfg = _lattice_cfg(cid, "lattice_units", menu, w, scaling, n % 2, 0.99, (0.0, 0.1)[n % 2], alpha, L, tr)
+            zone = range(L) if not q else sorted({1, w + 2} | set(range(2 * w, 3 * w, 2)))
+            out += _lattice_dev(cfg, default, zone, 1, tag + " dev")
+
+    # -- window 64: 8 bins, Page-Hinkley threshold 1, sklearn's covariance solver; scripted level shift after
+    #    5 periods (part of the mass crosses one edge), single deviations around the windows' boundaries
+    long = [
+        ("lattice_raw", "lat2", False, LAT_RAW[64], {0: 1}, [0, 1, 4, 8], 0.99),
+        ("lattice_scaled", "lat2", True, LAT_SCALED[64], {0: 1, 8: 7, 4: 5}, [0, 1, 4, 8], 0.99),
+        ("lattice_scaled", "lat3", True, LAT_SCALED[64], {0: 1, 8: 7, 4: 5}, [0, 3, 5, 8], 0.6),
+        ("lattice_grid", "grid", False, LAT_GRID64, {a: a + 5 for a in range(5)}, [0, 6, 7, 14], 0.99),
+        ("lattice_grid", "grid", False, LAT_GRID64, {a + 5 * b: min(a + 1, 4) + 5 * b for a in range(5) for b in range(3)},
+         [0, 6, 7, 14], 0.99),
+        ("lattice_grid", "grid", False, LAT_GRID64, {a: a + 5 for a in range(5)}, [0, 6, 7, 14], 0.6),
+    ]
+    w = 64
+    for n, (fam, menu, scaling, period, shift, a, ev) in enumerate(long):
+        default = period * 5 + [shift.get(s, s) for s in period] * 4
+        L = len(default)
+        for stepi in (0, 1):
+            cid += 1
+            if q and (stepi != (n + 1) % 2 or n in (2, 5)):
+                continue
+            cfg = _lattice_cfg(cid, fam, menu, w, scaling, stepi, ev, (0.1, 0.0)[n % 2], a, L)
+            if fam == "lattice_grid":
+                zone = [70, 130, 131, 190, 321, 322, 323, 340, 380]  # reference window kept: covariance stays diagonal
+            else:
+                zone = [5, 70, 130, 131, 190, 321, 322, 323, 340, 380]
+            if not q:
+                zone = sorted(set(zone) | set(range(128, 140)) | set(range(316, 332)))
+            out += _lattice_dev(cfg, default, zone, 1, "shift dev", parts=2 if q else 4)
+    return out
+
 
 def tasks(tier, seed):
     allc = _all_configs()
@@ -794,6 +970,7 @@ def tasks(tier, seed):
     out += _sym_tasks(tier)
     out += _family_tasks(tier, allc)
     out += _long_family_tasks(tier)
+    out += _lattice_tasks(tier)
     return out
 
 
@@ -819,6 +996,22 @@ REQUIRED = [
     "fam_%s_%s" % (fam, what)
     for fam in ("unit_small", "unit_large", "mixed_units", "level", "int64")
     for what in ("checks", "nonzero_scores", "multi_component_checks", "drifts")
+] + [
+    # round 4 lattice families (readings exactly on interior bin edges, strict same-side oracle)
+    "lat_exact_edge_checks",
+    "lat_exact_edge_checks_two_components",
+    "lat_exact_edge_checks_scaled",
+    "lat_exact_edge_checks_second_epoch",
+    "lat_exact_edge_tie_checks",
+    "lat_exact_edge_tie_identical_windows",
+    "lat_exact_edge_tie_nonzero_scores",
+    "lat_exact_edge_convention_sensitive_checks",
+    "lat_exact_edge_tie_drifts",
+    "lat_exact_edge_tie_checks_lambda1",
+] + [
+    "fam_%s_%s" % (fam, what)
+    for fam in ("lattice_raw", "lattice_scaled", "lattice_grid", "lattice_units")
+    for what in ("checks", "nonzero_scores", "drifts")
 ]
 
 TIME_BUDGET = {"quick": 2400, "thorough": 14400}
@@ -836,6 +1029,12 @@ def describe(tier):
         "measurement (row = level + unit * point, one unit for all columns or one per column), at other levels and "
         "as int64 rows: deviation-bounded histories (k = 1) and the scripted window-60 history, same oracle "
         "(the specification is evaluated on the very same rows; nothing in it is an absolute magnitude); "
+        "(5) lattice data: a quantised reading (levels 0..8) next to constant columns, or two uncorrelated quantised "
+        "readings, with windows whose mean (and, with online scaling, power-of-two standard deviation) make every "
+        "projection and every bin edge exact in binary64, so that most readings sit exactly on interior bin edges: "
+        "periodic default (test window == reference window: score exactly 0) with single deviations, window 64 with a "
+        "scripted level shift; there the recorded score must be the score of ONE consistent edge convention applied "
+        "to both histograms (left-closed as numpy, or right-closed); "
         "a history is non-trivial when at least one "
         "update reported drift or started a rebuild; histories are distinct event sequences or configurations",
         "bounds": {
@@ -869,6 +1068,22 @@ def describe(tier):
             "intersection: window 9 (3 bins), period %s, alphabet %s, L = 45, k = 1 over %s"
             % ("3/4" if q else "4/5", list(W9_PERIOD), list(W9_ALPHABET),
                "positions 3, 12 and 18..26" if q else "every position"),
+            "family_lattice": "intersection metric only; menus lat2 (reading, const), lat3 (const, reading, const), grid "
+            "(reading a, reading 16 b, const); raw windows %s, scaled windows %s (level counts 0..8: see LAT_RAW / "
+            "LAT_SCALED), step 1 and 2 (window 64: 1 and 3), ev_threshold and delta rotate; L = 5w, k = 1 over %s; dyadic "
+            "units / levels / int64 (%s) on window 16, raw and scaled; window 64 (8 bins, Page-Hinkley threshold 1): 5 "
+            "periods + 4 shifted periods (576 samples), single deviations at %s: lat2 raw, lat2 scaled, %sgrid raw with "
+            "two retained components (shift in either reading)%s"
+            % (
+                "4, 9, 16 (lat2, lat3)" if q else "4, 9, 16, 25 (lat2), 9, 16 (lat3)",
+                "8, 16 (lat2)",
+                "every position (w <= 9) / 3 positions + the first w+2 sliding updates (w = 16)" if q
+                else "every position (k = 2 for w <= 9)",
+                [t for t, _ in LAT_TRANSFORMS],
+                "9-10 positions around the window boundaries and the shift" if q else "38 positions",
+                "" if q else "lat3 scaled (ev 0.6), ",
+                "" if q else " and with one retained component (ev 0.6)",
+            ),
             "family_long": "window 60 scripted history (228 samples, no deviation): %s"
             % ("unit 1e-6, unit 1e6, level -65536, int64: 2 of the 4 metric x scaling combinations each" if q
                else "units 1e-12, 1e-6, 1e6, 1e12, mixed units A, levels -65536 and per-column, int64: "
@@ -896,7 +1111,16 @@ def describe(tier):
             "(near_tie_steered); exact zeros produced by min <- sum are enforced strictly",
             "the detector is deep-copied before every update so that snapshot exploration and fresh execution see "
             "the same memory layout (pandas/numpy results differ in the last bits between a grown frame and its copy)",
-            "window_size <= 50 gives Page-Hinkley threshold 0; threshold 1 is exercised with window_size 60 only",
+            "window_size <= 50 gives Page-Hinkley threshold 0; threshold 1 is exercised with window_size 60 and 64 only",
+            "lattice families: the strict same-side rule is applied only where the specification has verified in "
+            "rational arithmetic that the retained component is a signed unit vector and that all values, means, "
+            "standardised values, projections and bin edges lie on one dyadic grid of at most 40 bits (counted in "
+            "lat_exact_edge_*); otherwise (sklearn's SVD returns 0.9999999999999998 for some small windows, a deviation "
+            "in the reference window makes its mean non-dyadic or the covariance non-diagonal, two standardised "
+            "uncorrelated readings have equal eigenvalues) the tolerant rule applies, and a window with more than 64 "
+            "admissible count vectors (many values within 1e-9 of edges that are not exactly decidable) is outside the "
+            "specification and closes the branch (undefined_too_many_values_*); 'kl' is not affected by bin edges "
+            "and has no lattice family",
             "unit / level families: 'no spread', 'no variance' and 'constant column' in the specification mean below "
             "1e-9 of the magnitude of the data fed to the PCA, never an absolute number; score, bin-edge and "
             "Page-Hinkley tolerances are unchanged (scores are unit-free); levels are limited to 2^16 so that the "
